@@ -225,6 +225,72 @@ pub fn run(tier: Tier, seed: u64, replay: Option<String>) -> i32 {
             }
         }
     }
+    // ---- modules assembled from the library of less common notations (classes, objects,
+    // COMPONENTS OF inside extension groups, parameterization, ...): permutation of the
+    // assignments and concurrent compilation
+    {
+        let n_lib = tier.pick(300, 3000);
+        let mut drv = Driver::new(seed, 113, 200);
+        let streams: Vec<Vec<u32>> = drv.draw(n_lib).iter().map(|t| t.current()).collect();
+        type LibRes = Vec<(String, Vec<String>, Vec<String>, Option<String>)>;
+        let results: Vec<LibRes> = streams
+            .par_iter()
+            .map(|s| {
+                let mut src = Src::new(s);
+                let k = 3 + src.pick(10);
+                let mut lines: Vec<&str> = vec![crate::props::c08::EXOTIC[0], "Base ::= SEQUENCE { x INTEGER, y BOOLEAN OPTIONAL, ..., w NULL }"];
+                for _ in 0..k {
+                    let l = crate::props::c08::EXOTIC[src.pick(crate::props::c08::EXOTIC.len())];
+                    if !lines.contains(&l) {
+                        lines.push(l);
+                    }
+                }
+                let module = |ls: &[&str]| format!("Lib-Mod DEFINITIONS AUTOMATIC TAGS ::= BEGIN\n{}\nEND\n", ls.join("\n"));
+                let base_src = vec![module(&lines)];
+                let base = comp::compile_rasn(&base_src, &cfg);
+                let mut out: LibRes = vec![];
+                if !matches!(base, Outcome::Ok(_)) {
+                    return out;
+                }
+                let mut rev = lines.clone();
+                rev.reverse();
+                let mut variants = vec![("library-assignments-reversed".to_string(), vec![module(&rev)])];
+                for kk in 0..2 {
+                    let p = permute(&lines, &mut src);
+                    variants.push((format!("library-assignments-permuted-{kk}"), vec![module(&p)]));
+                }
+                for (leg, srcs) in variants {
+                    let o = comp::compile_rasn(&srcs, &cfg);
+                    out.push((leg, base_src.clone(), srcs, differ(&base, &o)));
+                }
+                // the same text on 6 threads at once
+                let handles: Vec<_> = (0..6)
+                    .map(|_| {
+                        let t = base_src.clone();
+                        let cfg2 = cfg.clone();
+                        std::thread::spawn(move || {
+                            comp::install_panic_hook();
+                            comp::compile_rasn(&t, &cfg2)
+                        })
+                    })
+                    .collect();
+                for h in handles {
+                    let o = h.join().unwrap_or(Outcome::Panic("join".into()));
+                    out.push(("library-concurrent".to_string(), base_src.clone(), base_src.clone(), differ(&base, &o)));
+                }
+                out
+            })
+            .collect();
+        for res in results {
+            for (leg, base, var, d) in res {
+                ctx.case(&format!("{leg}:{}", var.join("\n")), true);
+                ctx.class_n(&format!("leg:{}", leg.trim_end_matches(|c: char| c.is_ascii_digit() || c == '-')), 1);
+                if let Some(d) = d {
+                    fail(&mut ctx, &leg, &base, &var, &d);
+                }
+            }
+        }
+    }
     // ---- generator outputs: permutations
     let gcfg = GenCfg { max_modules: 4, ..GenCfg::default() };
     let n_gen = tier.pick(400, 5000);
